@@ -37,6 +37,10 @@ impl<H: Hal, T: Transport> VirtIORng<H, T> {
 
     /// Request random bytes from the device to be stored into `dst`.
     pub fn request_entropy(&mut self, dst: &mut [u8]) -> Result<usize> {
+        if dst.is_empty() {
+            // The queue doesn't accept empty buffers.
+            return Err(crate::Error::InvalidParam);
+        }
         let num = self
             .queue
             .add_notify_wait_pop(&[], &mut [dst], &mut self.transport)?;
